@@ -137,7 +137,7 @@ def showState (p : PState) (a : App) : PState × String :=
 
 def showOut (o : TxOut) : String :=
   if o.crash then "res=crash" else
-  s!"res={showRes o.res} gw={o.gasWanted} gu={o.gasUsed} ran=a{if o.anteRan then 1 else 0}m{o.msgsRan} hook={showHook o.hook}"
+  s!"res={showRes o.res} gw={o.gasWanted} gu={o.gasUsed} ran=a{if o.anteDone then 2 else if o.anteRan then 1 else 0}m{o.msgsRan} hook={showHook o.hook}"
 
 def withState (p : PState) (a : App) (pre : String) : PState × String :=
   let r := showState p a
